@@ -60,13 +60,15 @@ def main():
             corpus = V.corpus_files(limit=None if tier == "thorough" else 400, rng=rng)
             for cp in corpus:
                 songs.append(("corpus", {"path": os.path.relpath(cp, V.REPO)})); paths.append(cp)
-        r = V.run([drv, "60000"], inp="\n".join(paths) + "\n", env=env, timeout=3000)
+        # generated modules are inside the vocabulary by construction: they are played even if the loader's translation of
+        # their effects leaves it, and the property's own clauses (no model needed) are then evaluated on them
+        r = V.run([drv, "60000"], inp="\n".join(("" if songs[i][0] == "corpus" else "+") + p for i, p in enumerate(paths)) + "\n", env=env, timeout=3000)
         if r.returncode != 0:
             k = r.stdout.count("ENDPLAY")
             ck.violation({"engine": "linear", "format": songs[min(k, len(songs) - 1)][0], "song": songs[min(k, len(songs) - 1)][1], "broken": "sanitizer report / crash in scan or playback", "stderr": r.stderr[-2000:]}, key="c18-crash")
         blocks = r.stdout.split("ENDPLAY\n")
         nd = 0; skipped = {}; fxhist = {}; ncorpus = 0
-        minp = []; meta = []
+        minp = []; meta = []; direct = []
         for i, (fmt, s) in enumerate(songs):
             if i >= len(blocks):
                 break
@@ -87,7 +89,10 @@ def main():
                 rst = 0
             pr = [l.split(":", 1)[1].split() for l in lines if l.startswith("PR ")]
             if any("X" in rws for rws in pr):
-                skipped["outside vocabulary"] = skipped.get("outside vocabulary", 0) + 1; continue
+                skipped["outside vocabulary"] = skipped.get("outside vocabulary", 0) + 1
+                if fmt != "corpus":
+                    direct.append((i, lines, tf))
+                continue
             for rws in pr:
                 for e in rws:
                     fxhist[e[0]] = fxhist.get(e[0], 0) + 1
@@ -152,6 +157,26 @@ def main():
                 if fmt == "corpus": ncorpus += 1
                 if len(ck.cov["samples"]) < 2:
                     ck.sample({"format": fmt, "orders": s.get('orders'), "model": res[:200], "impl_seq0": seq0})
+        for (i, lines, tf) in direct:
+            fmt, s = songs[i]
+            ck.count()
+            seq0 = next((l.split() for l in lines if l.startswith("SEQ 0 ")), None)
+            ords = {int(l.split()[1]): int(l.split()[2]) for l in lines if l.startswith("ORD ")}
+            frames = [tuple(int(x) for x in l.split()[1:]) for l in lines if l.startswith("FR ")]
+            t = Fraction(0); first = {}; looped = False
+            for (pos, row, frame, speed, bpmf, loop, rdel) in frames:
+                if loop > 0: looped = True; break
+                first.setdefault(pos, t); t += tf / bpmf
+            tick = tf / 20
+            bad = None
+            if seq0 and looped and abs(int(seq0[3]) - t) > tick + 1: bad = "reported duration %s vs rendered %s (more than one tick apart)" % (seq0[3], float(t))
+            for o, tm in first.items():
+                if bad is None and o in ords and ords[o] >= 0 and abs(ords[o] - tm) > tick + 1: bad = "order %d start time %d vs rendered %s" % (o, ords[o], float(tm))
+            if bad:
+                nd += 1
+                ck.violation({"engine": "linear", "format": fmt, "song": s, "what": bad,
+                              "broken": "C18 on a generated module whose loaded events the scan/player no longer keep inside the vocabulary: reported vs rendered time"},
+                             key="c18:%s:direct" % fmt)
         ck.engine_stat("linear", songs=len(songs), compared=len(meta), skipped=skipped, effect_hist=fxhist, disagreements=nd, corpus_modules_inside_vocabulary_compared=ncorpus)
     finally:
         shutil.rmtree(tmpd, ignore_errors=True)
